@@ -124,9 +124,39 @@ def run(ctx):
                     names = ABS.atoms_in(cl)
                     hy = [a_ > 0 for a_ in ABS.sqrt_args(names)]
                     ctx.prove("i/%s/%s" % (kind, name), z3.And(*cl), hy, family="conformity", params=dict(params, kind=kind), abs_cons="cone", group="i-" + kind)
+                    if nconf in (0, 4, 11):
+                        # lemma for (iii'): with ARBITRARY multipliers m0, m1 on the two local functions of the shared edge the
+                        # component is continuous iff m0 == -m1 (orientation-consistent pair) - this reduces conformity of any
+                        # constructed space to a sign condition on its multiplier table
+                        m0, m1 = SR(z3.Real("m0")), SR(z3.Real("m1"))
+                        el_i = [(el, i) for el in range(2) for i in range(3) if len(sp.global2local[int(sp.local2global[el, i])]) == 2]
+                        lm = lift_arr(np.array(sp.local_multipliers, dtype=object).copy())
+                        (ea_, ia_), (eb_, ib_) = el_i
+                        lm[ea_, ia_], lm[eb_, ib_] = m0, m1
+                        saved = sp._local_multipliers
+                        sp._local_multipliers = lm
+                        try:
+                            sd = []
+                            for el, i in el_i:
+                                fv = sp.evaluate(el, pts[el])
+                                ie = gd.integration_elements[el]
+                                f = [fv[d_, i, 0] for d_ in range(3)]
+                                sd.append(dot(f, cross(tvec, Nn[el])) * ie if kind == "RWG" else dot(f, tvec) * ie * ie)
+                        finally:
+                            sp._local_multipliers = saved
+                        cont = eq_formula(sd[0] * NN[1], sd[1] * NN[0])
+                        nz = [term(NN[0]) > 0, term(NN[1]) > 0, term(dot(tvec, tvec)) > 0]
+                        if kind == "RWG":
+                            ctx.prove("i/%s/%s/lemma-continuous-iff-opposite-multipliers" % (kind, name), cont == (term(m0) == -term(m1)), hy + nz, family="conformity", params=dict(params, kind=kind), abs_cons="cone", group="i-lemma-" + kind)
+                        else:
+                            # SNC = n x RWG with the same multipliers: sufficiency is proved on the real code; necessity follows from the
+                            # RWG lemma through (n x f).t == f.(t x n), proved below as a pure identity
+                            ctx.prove("i/%s/%s/lemma-opposite-multipliers-give-continuity" % (kind, name), z3.Implies(term(m0) == -term(m1), cont), hy + nz, family="conformity", params=dict(params, kind=kind), abs_cons="cone", group="i-lemma-" + kind)
                     if nconf == 0 and kind == "RWG":
                         ctx.twin("twin/rwg-normal-component-jumps", eq_formula(inner[0] * NN[1], -(inner[1] * NN[0])), hy + [term(inner[0]) != 0], abs_cons="cone")
                 nconf += 1
+    fa, na, ta = [[z3.Real("%s%d" % (nm_, d_)) for d_ in range(3)] for nm_ in ("lf", "ln", "lt")]
+    ctx.prove("i/lemma/triple-product", dot(cross(na, fa), ta) == dot(fa, cross(ta, na)), [], family="conformity", params={"lemma": "(n x f).t = f.(t x n)"}, abs_cons=False, group="i-lemma-SNC")
     ctx.concrete("conformity", "conformity", {})
     ctx.encode_secs["i"] = round(time.time() - t0, 2)
 
@@ -206,7 +236,7 @@ def run(ctx):
                 cnt_claims.append(z3.Implies(z3.And(pcf, count > 0), count == gdc))
                 empty_claims.append(z3.Implies(z3.And(pcf, count == 0), z3.BoolVal(gdc == 0)))
                 # (iii) coherence of the maps of this path's space (concrete arrays per symbolic path)
-                why = coherence(space, g, kind)
+                why = coherence(space, g, kind) or conformity_table(space, g, kind)
                 map_claims.append((z3.Implies(pcf, z3.BoolVal(not why)), why))
             CH = 60
             for j_ in range(0, len(cnt_claims), CH):
@@ -263,6 +293,35 @@ def dual_nodal_mismatches(b, g, kind, deg):
                 if deg == 0:
                     break
     return bad
+
+
+def conformity_table(space, g, kind):
+    """'' if the multiplier table makes the space conforming across every edge whose two neighbours are in the support:
+    RWG/SNC: the two local functions of the edge have opposite multipliers (lemma of part (i)) and the same dof;
+    P1: the local functions of each end vertex have equal multipliers and the same dof on both sides."""
+    l2g, mult = np.asarray(space.local2global), np.asarray(space.local_multipliers)
+    supp = set(int(x) for x in space.support_elements)
+    val = lambda x: float(SR.lift(x).c) if not isinstance(x, (int, float, np.integer, np.floating)) else float(x)
+    for ed in range(g.number_of_edges):
+        ne = [int(x) for x in g.edge_neighbors[ed]]
+        if len(ne) != 2 or not (ne[0] in supp and ne[1] in supp):
+            continue
+        if kind in ("RWG", "SNC"):
+            loc = [[int(x) for x in g.element_edges[:, el]].index(ed) for el in ne]
+            m = [val(mult[el, i]) for el, i in zip(ne, loc)]
+            if m[0] != -m[1]:
+                return "edge %d between supported elements %s: multipliers %s are not opposite (normal/tangential component jumps)" % (ed, ne, m)
+            if m[0] != 0 and int(l2g[ne[0], loc[0]]) != int(l2g[ne[1], loc[1]]):
+                return "edge %d: the two half functions belong to different dofs" % ed
+        elif kind == "P":
+            for vtx in [int(x) for x in g.edges[:, ed]]:
+                loc = [[int(x) for x in g.elements[:, el]].index(vtx) for el in ne]
+                m = [val(mult[el, i]) for el, i in zip(ne, loc)]
+                if m[0] != m[1]:
+                    return "vertex %d across edge %d between supported elements %s: multipliers %s differ (function jumps)" % (vtx, ed, ne, m)
+                if m[0] != 0 and int(l2g[ne[0], loc[0]]) != int(l2g[ne[1], loc[1]]):
+                    return "vertex %d across edge %d: different dofs on the two sides" % (vtx, ed)
+    return ""
 
 
 def coherence(space, g, kind):
@@ -380,7 +439,7 @@ def concrete(family, params):
             if int(sp.global_dof_count) != cnt:
                 key = "dof_count/%s%d/%s" % (kind, deg, "no-selected-entity" if cnt == 0 else "mismatch")
                 return {"gap": 1.0, "key": key, "mask": supp, "include_boundary_dofs": inc, "truncate_at_segment_edge": trunc, "global_dof_count": int(sp.global_dof_count), "selected_entities": cnt}
-            why = coherence(sp, g, kind)
+            why = coherence(sp, g, kind) or conformity_table(sp, g, kind)
             if why:
                 return {"gap": 1.0, "key": "dof_maps/%s%d" % (kind, deg), "why": why, "mask": supp}
         return {"gap": 0.0, "key": family}
